@@ -11,8 +11,11 @@
    Structure: outer strong induction on the VALIDITY fuel (a "$ref" spends one
    unit, so an assumed pair is discharged at strictly smaller fuel), inner
    induction on the schema with [schema_ind'], one lemma per node kind against
-   an abstract verdict [cov] on the children ([Pcov]); existential [de]-fuels
-   are merged with [max] and SerdeProofs.acc_mono. *)
+   an abstract verdict [cov] on the children ([Pcov]); the inner induction
+   carries the statement for a schema AND for its children ([Pkids]) because the
+   tagged-enum and allOf cases call [cov] on grandchildren (the members of a
+   union branch); existential [de]-fuels are merged with [max] and
+   SerdeProofs.acc_mono. *)
 From Coq Require Import String ZArith NArith QArith List Bool Lia Arith Wf_nat.
 From Typify Require Import Base.Json Spec.Schema Spec.Valid IR.TypeIR IR.Serde Check.Covers
   Proofs.ValidProofs Proofs.SerdeProofs.
